@@ -411,7 +411,10 @@ def runFile (fs : PFS) (o : Nat → Oracle) (banned : List Kind) :
           match flushF fs.length st1 with
           | .error e => .error e
           | .ok st2 =>
-            if anyExplicit st2.ctx.frames then .error ⟨f, .ctx .unclosedAtEOF (sc.endCur - 1)⟩ else .ok st2
+            -- repaired `processEOF`: "not all explicit contexts are closed" only at the end of the ROOT file
+            -- (`scannersStack.Empty()`; the root is the file run with the empty stack)
+            if stack.isEmpty && anyExplicit st2.ctx.frames then .error ⟨f, .ctx .unclosedAtEOF (sc.endCur - 1)⟩
+            else .ok st2
     | _ => .error ⟨f, .fault .nilDeref⟩
 
 /-- body bytes of a directive of a project -/
